@@ -2,6 +2,7 @@ package props
 
 import (
 	"fmt"
+	"go/token"
 	"go/types"
 	"sort"
 
@@ -140,6 +141,7 @@ func init() {
 		Not:  "Condition semantics (prefix containment, regular expressions, comparisons), evaluation order results and equality with an interpreter of the documented model are not decided.",
 		Run: func(c *Ctx) {
 			c.ruleRatchets("C10")
+			c.ruleDefinedSetIdentity()
 			c.ruleSharedAttrWrites("E2a.shared-write", []string{"internal/pkg/table"}, 30)
 			c.ruleOwnedPathMutation("E2b.owned-path", 30)
 			c.ruleSiblingCompleteness("E4.policy-conditions", "internal/pkg/table", "Condition", "ConditionType", []string{"internal/pkg/table.NewStatement"}, []string{"(*internal/pkg/table.Statement).ToConfig"}, 30)
@@ -148,4 +150,110 @@ func init() {
 			c.ruleSiblingCompleteness("E4.policy-actions", "internal/pkg/table", "Action", "ActionType", []string{"internal/pkg/table.NewStatement"}, []string{"(*internal/pkg/table.Statement).ToConfig"}, 18)
 		},
 	})
+}
+
+// ruleDefinedSetIdentity: an installed defined set is edited in place, never swapped for another object.
+func (c *Ctx) ruleDefinedSetIdentity() {
+	r := c.R
+	rule := "E6.defined-set-identity"
+	r.Rule(rule, "statements hold pointers to the defined-set objects they were built with, so the set that is listed through the API and the set that is evaluated are the same only as long as the registry never puts a different object under an existing name: every store m[name] = set into a map[string]DefinedSet by a RoutingPolicy method lies on the 'name absent' edge of a lookup of that very name in that very map (an existing set is changed through its own Append / Remove / Replace)", 1)
+	ds := c.P.NamedType("internal/pkg/table", "DefinedSet")
+	rp := c.P.NamedType("internal/pkg/table", "RoutingPolicy")
+	if ds == nil || rp == nil {
+		r.Undec(rule, "-", "anchor:DefinedSet/RoutingPolicy", "-", "not found")
+		return
+	}
+	n := 0
+	for _, fn := range c.P.FuncsIn("internal/pkg/table") {
+		if fn.Blocks == nil {
+			continue
+		}
+		outer := ir.Outer(fn)
+		if outer.Signature.Recv() == nil || ir.NamedOf(ir.Deref(outer.Signature.Recv().Type())) != rp {
+			continue
+		}
+		for _, b := range fn.Blocks {
+			for _, in := range b.Instrs {
+				mu, ok := in.(*ssa.MapUpdate)
+				if !ok {
+					continue
+				}
+				mt, ok := mu.Map.Type().Underlying().(*types.Map)
+				if !ok || ir.NamedOf(mt.Elem()) != ds {
+					continue
+				}
+				// a map made in this function is a fresh registry being filled
+				fresh := false
+				for v, i := ssa.Value(mu.Map), 0; i < 4; i++ {
+					switch x := v.(type) {
+					case *ssa.MakeMap:
+						fresh = true
+					case *ssa.Lookup:
+						v = x.X
+						continue
+					case *ssa.Extract:
+						v = x.Tuple
+						continue
+					}
+					break
+				}
+				if fresh {
+					continue // a registry built from scratch together with the statements that will point into it
+				}
+				n++
+				cons := fmt.Sprintf("store into the set registry #%d", n)
+				guarded := false
+				for _, g := range fn.Blocks {
+					for _, gi := range g.Instrs {
+						lk, ok := gi.(*ssa.Lookup)
+						if !ok || !lk.CommaOk || !sameSym(lk.X, mu.Map) || !sameKeyExpr(lk.Index, mu.Key) {
+							continue
+						}
+						for _, ref := range *lk.Referrers() {
+							ex, ok := ref.(*ssa.Extract)
+							if !ok || ex.Index != 1 || ex.Referrers() == nil {
+								continue
+							}
+							for _, r2 := range *ex.Referrers() {
+								if iff, ok := r2.(*ssa.If); ok && iff.Cond == ssa.Value(ex) && edgeDominates(iff.Block(), 1, b) {
+									guarded = true
+								}
+								// if !ok { ... } / switch { case !ok: ... }
+								if not, ok := r2.(*ssa.UnOp); ok && not.Op == token.NOT && not.Referrers() != nil {
+									for _, r3 := range *not.Referrers() {
+										if iff, ok := r3.(*ssa.If); ok && iff.Cond == ssa.Value(not) && edgeDominates(iff.Block(), 0, b) {
+											guarded = true
+										}
+									}
+								}
+							}
+						}
+					}
+				}
+				fk := ir.OuterKey(fn)
+				if guarded {
+					r.Ok(rule, fk, cons, c.P.InstrPos(mu), "only when the name is not registered yet")
+				} else {
+					r.Bad(rule, fk, cons, c.P.InstrPos(mu), "a set object is stored under a name that may already be registered: statements keep evaluating the old object while the API lists the new one")
+				}
+			}
+		}
+	}
+}
+
+// sameKeyExpr: the same value, or two calls of the same argument-less method on the same receiver (s.Name() twice).
+func sameKeyExpr(a, b ssa.Value) bool {
+	if sameSym(a, b) {
+		return true
+	}
+	ca, ok1 := a.(*ssa.Call)
+	cb, ok2 := b.(*ssa.Call)
+	if !ok1 || !ok2 {
+		return false
+	}
+	if ca.Call.IsInvoke() && cb.Call.IsInvoke() {
+		return ca.Call.Method == cb.Call.Method && ca.Call.Value == cb.Call.Value && len(ca.Call.Args) == 0 && len(cb.Call.Args) == 0
+	}
+	fa, fb := ca.Call.StaticCallee(), cb.Call.StaticCallee()
+	return fa != nil && fa == fb && len(ca.Call.Args) == 1 && len(cb.Call.Args) == 1 && ca.Call.Args[0] == cb.Call.Args[0]
 }
